@@ -163,7 +163,7 @@ void tcp_server(int nconn, bool blocking_listener) {
     for (size_t k = 0; k < S->conns.size(); k++) if ((int)S->conns[k].id == rport) ci = (int)k;
     if (ci < 0) violate("unknown_peer", "p_socket_accept", "accepted a connection from a port no client uses (%d)", rport);
     bool blocking = gen(2);
-    p_socket_set_blocking(cs, blocking);
+    if (!blocking) p_socket_set_blocking(cs, FALSE);      // an accepted socket is blocking by default, whatever the listener's mode
     spawn(0, [cs, ci, blocking]() {
       Conn &c = S->conns[ci];
       if (c.client_sends) run_receiver(cs, c, blocking); else run_sender(cs, c, blocking);
@@ -187,7 +187,7 @@ void tcp_client(int ci, bool blocking) {
   PSocketAddress *me = HX_API("p_socket_get_local_address", 0, false, p_socket_get_local_address(s, &e));
   c.id = p_socket_address_get_port(me);
   p_socket_address_free(me);
-  p_socket_set_blocking(s, blocking);
+  if (!blocking) p_socket_set_blocking(s, FALSE);
   PSocketAddress *sa = loopback(S->port);
   pboolean ok = HX_API("p_socket_connect", 0, false, p_socket_connect(s, sa, &e));
   p_socket_address_free(sa);
